@@ -2,6 +2,7 @@
    liquidity-point bookkeeping (the escrow / order-book identities are stated over the ledger model, see C04). *)
 From Coq Require Import NArith List Bool.
 From V Require Import U64 Extracted Dex DexProofs.
+From V Require Ledger LedgerConservation LedgerHistory.
 Import ListNotations.
 Local Open Scope N_scope.
 
@@ -52,6 +53,22 @@ Theorem C20_deposits : forall dead p x y ds p' x', pool_ok p -> u64 x -> u64 y -
   pool_ok p' /\ (x' = x \/ x' = x + sum_amounts ds) /\ p_total p <= p_total p'.
 Proof. exact deposit_inv. Qed.
 Print Assumptions C20_deposits.
+
+(* ---- sell-order escrow identity (ledger model): on every state reachable by any history of transactions, slashes and
+   end-block actions, the escrow pool of each chain holds exactly the sum of that chain's open sell orders *)
+Theorem C20_escrow_on_every_reachable_state : forall ops s s', V.LedgerHistory.LInv s -> V.LedgerHistory.hist_ok ops s ->
+  V.LedgerHistory.lrun ops s = V.Ledger.LOk s' -> V.LedgerConservation.Escrow s'.
+Proof. intros ops s s' HI HO HR. apply (V.LedgerHistory.history_invariant ops s s' HI HO HR). Qed.
+Print Assumptions C20_escrow_on_every_reachable_state.
+(* one message: create / edit / delete order move exactly the order amount in or out of the chain's escrow pool; a subsidy
+   cannot target an escrow pool (fix 90b2bfa: MessageSubsidy.Check bounds the chain id) *)
+Theorem C20_escrow_step : forall m s s', V.LedgerConservation.wf s -> V.LedgerConservation.Conserved s -> V.LedgerConservation.Escrow s ->
+  V.LedgerConservation.msg_bounded m -> V.LedgerConservation.msg_chain_ok m ->
+  (forall id o, V.Ledger.aget id (V.Ledger.l_orders s) = Some o -> (V.Ledger.o_chain o <= MaxChainId)%N) ->
+  (V.Ledger.l_chain s <= MaxChainId)%N ->
+  V.LedgerConservation.msg_fresh m s ->
+  V.Ledger.handle m s = V.Ledger.LOk s' -> V.LedgerConservation.Escrow s'.
+Proof. exact V.LedgerConservation.handle_escrow. Qed.
 
 (* non-vacuity *)
 Example ex_swap : handle_orders 1000000 2000000 [mkOrder 1000 0; mkOrder 5000 20000; mkOrder 7 0] =
